@@ -860,11 +860,9 @@ func deviceAttest01Validate(ctx context.Context, ch *Challenge, db DB, jwk *jose
 		}
 
 		// Validate nonce with SHA-256 of the token.
-		if len(data.Nonce) != 0 {
-			sum := sha256.Sum256([]byte(ch.Token))
-			if subtle.ConstantTimeCompare(data.Nonce, sum[:]) != 1 {
-				return storeError(ctx, db, ch, true, NewDetailedError(ErrorBadAttestationStatementType, "challenge token does not match"))
-			}
+		sum := sha256.Sum256([]byte(ch.Token))
+		if subtle.ConstantTimeCompare(data.Nonce, sum[:]) != 1 {
+			return storeError(ctx, db, ch, true, NewDetailedError(ErrorBadAttestationStatementType, "challenge token does not match"))
 		}
 
 		// Validate Apple's ClientIdentifier (Identifier.Value) with device
